@@ -263,6 +263,9 @@ def historical(run, n):
             for c in ("dem", "gop", "turnout"):
                 hist[f"results_{c}"] = (hist[f"baseline_{c}"] * rng.uniform(0.8, 1.2)).astype(int)
             below = list(e.cur.loc[e.cur["percent_expected_vote"] < e.threshold, "geographic_unit_fips"])
+            # the live feed arrives in its own order (not the order of the historical file) and with its own index
+            feed = e.cur.sample(frac=1, random_state=rng.randint(0, 10**6)).reset_index(drop=True)
+            hist = hist.sample(frac=1, random_state=rng.randint(0, 10**6)).reset_index(drop=True)
             outs = []
             for variant in range(2):
                 h = hist.copy()
@@ -276,7 +279,7 @@ def historical(run, n):
                     cl = cm.HistoricalModelClient()
                     with np.errstate(all="ignore"):
                         r = cl.get_historical_evaluation(
-                            e.cur.copy(), E.ELECTION_ID, e.office, ["turnout"], [0.5], e.threshold, e.unit_type,
+                            feed.copy(), E.ELECTION_ID, e.office, ["turnout"], [0.5], e.threshold, e.unit_type,
                             aggregates=["postal_code"], pi_method="nonparametric", save_output=[], features=[], fixed_effects={},
                             model_parameters={"fit_margin_outlier_model": False, "fit_turnout_outlier_model": False})
                     outs.append(P.digest(r[hist_id]["estimates"]))
